@@ -44,7 +44,7 @@ def decoders_for(entry, enc, quick):
     # the Reed-Muller encoder's own syndrome is a 2^k brute-force search per call
     if n - k <= (8 if quick else 10) and n <= 31 and (full or n <= 12) and entry.family != "rm":
         out.append(("SyndromeLookupDecoder", lambda: D.SyndromeLookupDecoder(enc), True))
-    if k <= (8 if quick else 10):
+    if k <= (8 if quick else 10) or (k <= 12 and entry.family in ("hamming", "golay")):      # the larger codebooks (2^11, 2^12 codewords) on two families
         out.append(("BruteForceMLDecoder", lambda: D.BruteForceMLDecoder(enc), True))
     if entry.family == "bch":
         out.append(("BerlekampMasseyDecoder", lambda: D.BerlekampMasseyDecoder(enc), False))
@@ -81,7 +81,7 @@ def object_events(entry, enc, tid0, rng, quick, run):
             continue
         budget = (400 if dname in slow else 3000) if quick else (500 if dname in slow else 3000)
         if dname == "BerlekampMasseyDecoder" and n > 15 and not quick:
-            budget = 250                        # pure-Python field arithmetic: ~50 ms per word at n = 31
+            budget = 120                        # pure-Python field arithmetic: ~50 ms per word at n = 31
         if entry.component in ("ReedSolomonCodeEncoder",) or dname == "ReedMullerDecoder":
             budget = min(budget, 200)           # components with a listed finding: enough cases to re-confirm it
         pats = patterns(n, t, 200 if not quick else 60, rng)
